@@ -31,8 +31,9 @@
 (*  Abs_Tags       64-bit integers are the tags 0, 1, 2^32, 2^40, 2^64-1   *)
 (*                 (TLC integers are 32 bit); the only arithmetic the code *)
 (*                 does on them is "= 0" and "low 40 bits = 0".            *)
-(*  Abs_Counts     list lengths stay below the width of their binary count *)
-(*                 (u8 for sigs, u16 for coms).                            *)
+(*  Abs_Counts     the commitment list stays below its u16 binary count.   *)
+(*                 The u8 count of the participant list IS modelled        *)
+(*                 (CountU8, Havoc_Misparse below).                        *)
 (*  Abs_Age        age encryption is Enc(R, plaintext), opened by k iff    *)
 (*                 k \in R.                                                *)
 (***************************************************************************)
@@ -131,7 +132,7 @@ EncJsonCom(x) == [keys |-> JsonComKeys(x), f |-> x.cb]
 DecJsonCom(w) == [k |-> IF "p" \in w.keys THEN "out" ELSE "in", cb |-> IF "f" \in w.keys THEN w.f ELSE FALSE]
 
 EncJson(v) ==
-  [fmt |-> "json", keys |-> JsonKeys(v), val |-> v,
+  [fmt |-> "json", encres |-> "ok", keys |-> JsonKeys(v), val |-> v,
    sigs |-> [i \in DOMAIN v.sigs |-> EncJsonSig(v.sigs[i])],
    coms |-> [i \in DOMAIN v.coms.items |-> EncJsonCom(v.coms.items[i])],
    proofkeys |-> JsonProofKeys(v.proof)]
@@ -188,31 +189,51 @@ BinLen(v) ==
       + (IF v.proof # "none" THEN 32 + 32 + 1 + (IF v.proof = "sig" THEN 64 ELSE 0) ELSE 0)
   + (IF v.feat = 2 THEN 8 ELSE 0)
 
+(* SigsWrapRef::write: "writer.write_u8(self.0.len() as u8)": at the pinned commit the
+   participant count is truncated to one byte and all entries are written.
+   fixes/C08-2.patch makes the writer refuse (Err) more entries than the count can
+   carry: when that patch is in /repo set BinCountChecked to TRUE. *)
+BinCountChecked == FALSE
+CountU8(n) == n % 256
+\* a slate the binary form can carry at all
+BinRepresentable(v) == Len(v.sigs) <= 255
+
 (* SlateV4Bin::write.  The trailing lock height exists only for feat = 2
    ("Write lock height for height locked kernels"); a missing feat_args is
    written as 0. *)
 EncBin(v) ==
-  [fmt |-> "bin", status |-> BinStatus(v), structs |-> BinStructs(v), val |-> v,
+  [fmt |-> "bin", encres |-> IF BinCountChecked /\ ~BinRepresentable(v) THEN "enc-err" ELSE "ok",
+   status |-> BinStatus(v), structs |-> BinStructs(v), val |-> v,
+   sigcount |-> CountU8(Len(v.sigs)),
    sigs |-> [i \in DOMAIN v.sigs |-> EncBinSig(v.sigs[i])],
    coms |-> [i \in DOMAIN v.coms.items |-> EncBinCom(v.coms.items[i])],
    rsig |-> IF v.proof = "sig" THEN 1 ELSE 0,
    lockhgt |-> IF v.feat = 2 THEN <<IF v.fargs = NoArg THEN "0" ELSE v.fargs>> ELSE <<>>,
    len |-> BinLen(v)]
-\* SlateV4Bin::read
+(* SlateV4Bin::read -> [res, v].  The reader takes sigcount entries.  If that is
+   not all of them (count wrapped) it goes on reading inside the participant
+   list - Havoc_Misparse: the flag byte of the next entry is taken for the
+   optional-structs status byte; flag 0 (no partial signature) means "no coms,
+   no proof", and unless feat = 2 the reader is then done and the remaining
+   bytes are ignored (byte_ser does not look for trailing data).  Every other
+   continuation reads key bytes as counts/lengths: modelled as a decode error. *)
 DecBin(w) ==
   LET st(k) == k \in w.status
-      feat  == IF st("feat") THEN w.val.feat ELSE 0 IN
-  [ver |-> w.val.ver, sta |-> ByteState(StateByte(w.val.sta)), off |-> w.val.off,
-   np    |-> IF st("np") THEN w.val.np ELSE 2,
-   amt   |-> IF st("amt") THEN w.val.amt ELSE "0",
-   fee   |-> IF st("fee") THEN w.val.fee ELSE "0",
-   feat  |-> feat,
-   fargs |-> IF feat = 2 THEN w.lockhgt[1] ELSE NoArg,        \* "if opts.feat == 2 { Some(read_u64) } else { None }"
-   ttl   |-> IF st("ttl") THEN w.val.ttl ELSE "0",
-   sigs  |-> [i \in DOMAIN w.sigs |-> DecBinSig(w.sigs[i])],
-   coms  |-> IF "coms" \in w.structs THEN [some |-> TRUE, items |-> [i \in DOMAIN w.coms |-> DecBinCom(w.coms[i])]]
-             ELSE NoComs,
-   proof |-> IF "proof" \in w.structs THEN (IF w.rsig = 1 THEN "sig" ELSE "nosig") ELSE "none"]
+      feat  == IF st("feat") THEN w.val.feat ELSE 0
+      n     == w.sigcount
+      whole == n = Len(w.sigs)
+      v == [ver |-> w.val.ver, sta |-> ByteState(StateByte(w.val.sta)), off |-> w.val.off,
+            np    |-> IF st("np") THEN w.val.np ELSE 2,
+            amt   |-> IF st("amt") THEN w.val.amt ELSE "0",
+            fee   |-> IF st("fee") THEN w.val.fee ELSE "0",
+            feat  |-> feat,
+            fargs |-> IF feat = 2 /\ whole THEN w.lockhgt[1] ELSE NoArg,   \* "if opts.feat == 2 { Some(read_u64) } else { None }"
+            ttl   |-> IF st("ttl") THEN w.val.ttl ELSE "0",
+            sigs  |-> [i \in 1..n |-> DecBinSig(w.sigs[i])],
+            coms  |-> IF whole /\ "coms" \in w.structs
+                      THEN [some |-> TRUE, items |-> [i \in DOMAIN w.coms |-> DecBinCom(w.coms[i])]] ELSE NoComs,
+            proof |-> IF whole /\ "proof" \in w.structs THEN (IF w.rsig = 1 THEN "sig" ELSE "nosig") ELSE "none"] IN
+  IF whole \/ (w.sigs[n + 1].flag = 0 /\ feat # 2) THEN [res |-> "ok", v |-> v] ELSE [res |-> "dec-err", v |-> v]
 
 \* ----------------------------------------------------------- slatepack ----
 (* Slatepacker::create_slatepack: payload = binary V4 slate; sender from the
@@ -232,18 +253,18 @@ AddrStrLen(hrp) == Len(hrp) + 1 + 52 + 6
 MetaBinLen(p, hrp) == 4 + 2 + (IF p.payload.innersender THEN 1 + AddrStrLen(hrp) ELSE 0)
 
 \* SlatepackBin::write: version(2) mode(1) flags(2) optlen(4) [sender] payload(len-prefixed u64)
-SpBin(p) == [fmt |-> "spbin", mode |-> p.mode, flags |-> IF p.sender THEN {"sender"} ELSE {}, payload |-> p.payload]
+SpBin(p) == [fmt |-> "spbin", encres |-> p.payload.body.encres, mode |-> p.mode, flags |-> IF p.sender THEN {"sender"} ELSE {}, payload |-> p.payload]
 SpBinLen(p, hrp) == 2 + 1 + 2 + 4 + (IF p.sender THEN 1 + AddrStrLen(hrp) ELSE 0) + 8
 \* SlatepackBin::read: encrypted_meta = default
 UnSpBin(w) == [mode |-> w.mode, sender |-> "sender" \in w.flags, metasender |-> FALSE, payload |-> w.payload]
 \* serde derive on Slatepack: sender skipped if None, encrypted_meta skipped if empty
 SpJsonKeys(p) == {"slatepack", "mode", "payload"} \cup (IF p.sender THEN {"sender"} ELSE {})
                  \cup (IF p.metasender THEN {"encrypted_meta"} ELSE {})
-SpJson(p) == [fmt |-> "spjson", keys |-> SpJsonKeys(p), mode |-> p.mode, payload |-> p.payload]
+SpJson(p) == [fmt |-> "spjson", encres |-> p.payload.body.encres, keys |-> SpJsonKeys(p), mode |-> p.mode, payload |-> p.payload]
 UnSpJson(w) == [mode |-> w.mode, sender |-> "sender" \in w.keys, metasender |-> "encrypted_meta" \in w.keys,
                 payload |-> w.payload]
 \* SlatepackArmor::encode/decode: framing + base58check of the binary slatepack
-Armor(p) == [fmt |-> "armor", inner |-> SpBin(p)]
+Armor(p) == [fmt |-> "armor", encres |-> p.payload.body.encres, inner |-> SpBin(p)]
 UnArmor(w) == UnSpBin(w.inner)
 
 \* Slatepack::try_decrypt_payload with the key of recipient k
@@ -252,7 +273,7 @@ Decrypt(p, k) ==
   ELSE IF k \in p.payload.R
        THEN [res |-> "ok", p |-> [mode |-> 0, sender |-> p.payload.innersender, metasender |-> p.metasender,
                                   payload |-> [R |-> {}, innersender |-> FALSE, body |-> p.payload.body]]]
-       ELSE [res |-> "err", p |-> p]
+       ELSE [res |-> "dec-err", p |-> p]
 
 \* --------------------------------------------------------- encodings ------
 Encodings  == {"json", "bin", "pkbin.plain", "pkbin.enc", "pkjson.plain", "pkjson.enc", "pkarmor.plain", "pkarmor.enc"}
@@ -270,15 +291,19 @@ Enc(e, s, env) ==
     [] Layer(e) = "pkbin"   -> SpBin(Pack(v, env, IsEnc(e)))
     [] Layer(e) = "pkjson"  -> SpJson(Pack(v, env, IsEnc(e)))
     [] Layer(e) = "pkarmor" -> Armor(Pack(v, env, IsEnc(e)))
-\* Dec_e: wire form -> [res, slate, sender]  (Slatepacker::deser_slatepack(decrypt = TRUE) + get_slate)
+\* Dec_e: wire form -> [res, slate, sender]  (Slatepacker::deser_slatepack(decrypt = TRUE) + get_slate);
+\* res: "ok" | "enc-err" (the encoder refused) | "dec-err"
+NoSlate == <<>>
 Dec(e, w, env) ==
-  CASE e = "json" -> [res |-> "ok", slate |-> FromV4(DecJson(w)), sender |-> FALSE]
-    [] e = "bin"  -> [res |-> "ok", slate |-> FromV4(DecBin(w)), sender |-> FALSE]
-    [] OTHER ->
-       LET p == CASE Layer(e) = "pkbin" -> UnSpBin(w) [] Layer(e) = "pkjson" -> UnSpJson(w) [] OTHER -> UnArmor(w)
-           d == Decrypt(p, env.key) IN
-       IF d.res # "ok" THEN [res |-> "err", slate |-> FromV4(DecBin(p.payload.body)), sender |-> FALSE]
-       ELSE [res |-> "ok", slate |-> FromV4(DecBin(d.p.payload.body)), sender |-> d.p.sender]
+  IF w.encres # "ok" THEN [res |-> w.encres, slate |-> NoSlate, sender |-> FALSE]
+  ELSE CASE e = "json" -> [res |-> "ok", slate |-> FromV4(DecJson(w)), sender |-> FALSE]
+         [] e = "bin"  -> LET b == DecBin(w) IN [res |-> b.res, slate |-> IF b.res = "ok" THEN FromV4(b.v) ELSE NoSlate, sender |-> FALSE]
+         [] OTHER ->
+            LET p == CASE Layer(e) = "pkbin" -> UnSpBin(w) [] Layer(e) = "pkjson" -> UnSpJson(w) [] OTHER -> UnArmor(w)
+                d == Decrypt(p, env.key) IN
+            IF d.res # "ok" THEN [res |-> d.res, slate |-> NoSlate, sender |-> FALSE]
+            ELSE LET b == DecBin(d.p.payload.body) IN
+                 [res |-> b.res, slate |-> IF b.res = "ok" THEN FromV4(b.v) ELSE NoSlate, sender |-> IF b.res = "ok" THEN d.p.sender ELSE FALSE]
 DecEnc(e, s, env) == Dec(e, Enc(e, s, env), env)
 
 \* ---------------------------------------------------------- properties ----
@@ -289,12 +314,16 @@ SlateEq(a, b) == Norm(a) = Norm(b)
 \* the property quantifies over the supported kernel features: 1 (coinbase) is rejected by Slate::kernel_features
 InScope(s) == s.feat \in {0, 2, 3}
 
-RoundTripRes(r, s, env, e) == /\ r.res = "ok" /\ SlateEq(r.slate, s) /\ (IsPack(e) => r.sender = env.snd)
+(* RoundTrip(e, s): decoding the encoding gives the same slate (and, for a slatepack, the same sender).  A slate
+   with more participants than the binary count can carry has no binary form: there the encoder may refuse
+   ("enc-err"); what it may never do is hand out bytes that decode to something else. *)
+RoundTripRes(r, s, env, e) ==
+  LET same == r.res = "ok" /\ SlateEq(r.slate, s) /\ (IsPack(e) => r.sender = env.snd) IN
+  IF UsesBin(e) /\ ~BinRepresentable(ToV4(s)) THEN same \/ r.res = "enc-err" ELSE same
 RoundTrip(e, s, env) == RoundTripRes(DecEnc(e, s, env), s, env, e)
 CrossEqual(s, env) ==
-   LET r == [x \in Encodings |-> DecEnc(x, s, env)]
-       n == [x \in Encodings |-> Norm(r[x].slate)] IN
-   \A e1, e2 \in Encodings : (r[e1].res = "ok" /\ r[e2].res = "ok") => n[e1] = n[e2]
+   LET r == [x \in Encodings |-> DecEnc(x, s, env)] IN
+   \A e1, e2 \in Encodings : (r[e1].res = "ok" /\ r[e2].res = "ok") => SlateEq(r[e1].slate, r[e2].slate)
 
 \* which fields of the decoded slate differ from the original, with the value class: the key of a finding
 SlateFields == {"ver", "sta", "off", "np", "amt", "fee", "feat", "fargs", "ttl", "sigs", "coms", "proof", "txk"}
@@ -305,7 +334,12 @@ FieldDiff(a, b, f) ==
   CASE f = "fargs" -> "fargs[feat" \o ToString(a.feat) \o ":" \o ArgClass(a.fargs) \o "->" \o ArgClassDec(b.fargs) \o "]"
     [] f \in {"amt", "fee", "ttl"} -> f \o "[" \o a[f] \o "->" \o b[f] \o "]"
     [] OTHER -> f
-DiffSet(a, b) == LET x == Norm(a)  y == Norm(b) IN {FieldDiff(x, y, f) : f \in {g \in SlateFields : x[g] # y[g]}}
+\* (when the participant count wrapped, the loss of the structures behind the list is a consequence, not a class of its own)
+DiffSet(a, b) ==
+  LET x == Norm(a)  y == Norm(b)
+      wrapped == Len(x.sigs) > 255 /\ x.sigs # y.sigs IN
+  IF wrapped THEN {"sigs[n>255]"} \cup {FieldDiff(x, y, f) : f \in {g \in SlateFields \ {"sigs", "coms", "proof", "txk"} : x[g] # y[g]}}
+  ELSE {FieldDiff(x, y, f) : f \in {g \in SlateFields : x[g] # y[g]}}
 
 \* ---------------------------------------------------------- addresses -----
 (* SlatepackAddress: bech32(hrp, 32 byte ed25519 key); all three encodings
